@@ -235,6 +235,48 @@ static void do_insert(struct set *s, struct model *m, struct universe *u, long l
         viol("cleanup-replace", "%s: replaced element id=%u cleaned %d times (want 1)", ctx, old_id, cleaned[old_id]);
 }
 
+/* Nodes taken out without disposal belong to the caller again, who may put them back - into this set or another one, also when
+ * it is empty at that moment (src/config.c moves nodes between trees that way).  They come back with whatever links they had. */
+#define POOL_MAX 64
+static struct set_node *pool[POOL_MAX];
+static unsigned int pool_n;
+static unsigned long n_reinserted, n_reinserted_into_empty;
+static int keep_removed;
+
+static void do_reinsert(struct set *s, struct model *m, struct universe *u, const char *ctx)
+{
+    struct set_node *n;
+    struct elem *e, *old = NULL;
+    int found;
+    unsigned int pos, old_id = 0;
+
+    if (!pool_n)
+        return;
+    n = pool[--pool_n];
+    e = set_node_data(n);
+    pos = model_pos(m, e->mkey, &found);
+    if (found) {
+        old = m->v[pos];
+        old_id = old->id;
+        linked[old->id] = 0;
+        m->v[pos] = e;
+        n_replacements++;
+    } else {
+        model_insert_at(m, pos, e);
+    }
+    linked[e->id] = 1;
+    n_reinserted++;
+    if (set_size(s) == 0)
+        n_reinserted_into_empty++;
+    in_set_call = 1;
+    set_insert(s, n);
+    in_set_call = 0;
+    n_ops++;
+    if (found && cleaned[old_id] != 1)
+        viol("cleanup-replace", "%s: element id=%u replaced by a re-inserted node was cleaned %d times (want 1)", ctx, old_id, cleaned[old_id]);
+    (void)u;
+}
+
 static void do_remove(struct set *s, struct model *m, struct universe *u, long long key, unsigned int variant, int no_dispose, const char *ctx)
 {
     int found, res;
@@ -259,7 +301,10 @@ static void do_remove(struct set *s, struct model *m, struct universe *u, long l
         int want = no_dispose ? 0 : 1;
         if (cleaned[id] != want)
             viol("cleanup-remove", "%s: removed element id=%u cleaned %d times (want %d)", ctx, id, cleaned[id], want);
-        if (no_dispose && res) {
+        if (no_dispose && res && keep_removed && pool_n < POOL_MAX) {
+            /* caller owns the node now and will put it back later, as it is */
+            pool[pool_n++] = set_node(e);
+        } else if (no_dispose && res) {
             /* caller owns the node now */
             struct set_node *n = set_node(e);
             cleaned[id] = 1; /* retire id */
@@ -328,7 +373,9 @@ static void do_clear(struct set *s, struct model *m, struct universe *u, int no_
             int want = no_dispose ? 0 : 1;
             if (cleaned[ids[ii]] != want)
                 viol("cleanup-clear", "%s: cleared element id=%u cleaned %d times (want %d)", ctx, ids[ii], cleaned[ids[ii]], want);
-            if (no_dispose) {
+            if (no_dispose && keep_removed && pool_n < POOL_MAX) {
+                pool[pool_n++] = set_node(old[ii]);
+            } else if (no_dispose) {
                 cleaned[ids[ii]] = 1;
                 if (u->cmp == set_compare_charp)
                     free(old[ii]->k.skey);
@@ -648,7 +695,10 @@ static void random_run(const char *cmpname, unsigned long seed, unsigned int uni
         if (absent)
             key += 1;
         snprintf(ctx, sizeof(ctx), "%s seed=%lu op#%lu", cmpname, seed, ii);
-        if (op < 40 && !absent)
+        keep_removed = 1;
+        if (pool_n && (op % 7) == 0)
+            do_reinsert(s, &m, u, ctx);
+        else if (op < 40 && !absent)
             do_insert(s, &m, u, key, variant, ctx);
         else if (op < 60)
             do_remove(s, &m, u, key, variant, 0, ctx);
@@ -660,7 +710,7 @@ static void random_run(const char *cmpname, unsigned long seed, unsigned int uni
             do_lower(s, &m, u, key, variant, ctx);
         else if (op < 99 && (rnd() % 64) == 0)
             do_clear(s, &m, u, 0, ctx);
-        else if ((rnd() % 64) == 0)
+        else if ((rnd() % (universe <= 16 ? 8 : 64)) == 0)
             do_clear(s, &m, u, 1, ctx);
         else
             do_find(s, &m, u, key, variant, ctx);
@@ -673,7 +723,16 @@ static void random_run(const char *cmpname, unsigned long seed, unsigned int uni
             break;
     }
     audit(s, &m, "final");
+    keep_removed = 0;
     do_clear(s, &m, u, 0, "final-clear");
+    while (pool_n) {
+        struct set_node *n = pool[--pool_n];
+        struct elem *e = set_node_data(n);
+        cleaned[e->id] = 1;
+        if (u->cmp == set_compare_charp)
+            free(e->k.skey);
+        free(n);
+    }
     free(s);
     free(keypool);
     free(m.v);
@@ -756,7 +815,8 @@ int main(int argc, char *argv[])
         fprintf(stderr, "usage\n");
         return 3;
     }
-    printf("STATS ops=%lu audits=%lu cleanups=%lu replacements=%lu absent_probes=%lu ids=%u violations=%lu\n",
+    printf("STATS reinserted=%lu reinserted_into_empty=%lu ops=%lu audits=%lu cleanups=%lu replacements=%lu absent_probes=%lu ids=%u violations=%lu\n",
+           n_reinserted, n_reinserted_into_empty,
            n_ops, n_audits, n_cleanups, n_replacements, n_absent_probes, next_id - 1, n_viol);
     free(cleaned);
     free(linked);
